@@ -28,7 +28,7 @@ func init() {
 		rng := rand.New(rand.NewSource(seed*2903 + 5))
 		ncore, nprog := 120, 160
 		if tier == "thorough" {
-			ncore, nprog = 6000, 6000
+			ncore, nprog = 30000, 12000
 		}
 		for i := 0; i < ncore; i++ {
 			out = append(out, Case{Family: "fccore", Seed: rng.Int63(), Cfg: WorldCfg{Dir: "forward"}, P: map[string]int{"runs": 40}})
